@@ -87,10 +87,11 @@ struct AState {
   long* rbuf[MAXS] = {nullptr, nullptr, nullptr, nullptr};
   char pres = '-';             // result of a CONDVAR_WAIT transition not yet returned to the actor's code (hidden state)
   std::vector<long> children;  // pids of created children, in creation order
+  std::vector<sg4::ActorPtr> child_ptr;
   const std::vector<Op>* ops = nullptr;
 };
 static AState AS[MAXA + 1];
-static bool assertion_failed = false;
+static bool assertion_failed = false, run_mode = false; // run_mode: plain Engine::run() main (application under simgrid-mc)
 static long payload_store[256]; static int payload_n = 0; // stable addresses for payloads
 
 static void alog(AState& s, const std::string& e) { if (!s.log.empty()) s.log += ","; s.log += e; }
@@ -154,12 +155,12 @@ static void do_op(int me, AState& s, const Op& o)
   else if (n == "wr") vars[A(0)] = s.local + A(1);
   else if (n == "set") vars[A(0)] = A(1);
   else if (n == "logv") alog(s, "v" + std::to_string(vars[A(0)]));
-  else if (n == "assert") { if (vars[A(0)] != A(1)) { alog(s, "ASSERTFAIL"); assertion_failed = true; MC_assert(0); } }
+  else if (n == "assert") { if (vars[A(0)] != A(1)) { alog(s, "ASSERTFAIL"); assertion_failed = true; if (run_mode) MC_assert(0); } }
   else if (n == "random") { int r = MC_random(A(0), A(1)); alog(s, "n" + std::to_string(r)); }
   else if (n == "sleep") sg4::this_actor::sleep_for(1.0);
   else if (n == "create") { int t = A(0); sg4::ActorPtr c = sg4::Actor::create("c", HOST, [] { run_ops(sg4::this_actor::get_pid()); });
-    (void)t; s.children.push_back(c->get_pid()); }
-  else if (n == "join") { size_t k = A(0); if (k < s.children.size()) { auto c = sg4::Actor::by_pid(s.children[k]); if (c) c->join(); alog(s, "j"); } }
+    (void)t; s.children.push_back(c->get_pid()); s.child_ptr.push_back(c); }
+  else if (n == "join") { size_t k = A(0); if (k < s.children.size()) { s.child_ptr[k]->join(); alog(s, "j"); } }
   else if (n == "joinp") { auto c = sg4::Actor::by_pid(A(0)); if (c) c->join(); alog(s, "j"); }
   else if (n == "exit") sg4::this_actor::exit();
   else { fprintf(stderr, "vx: unknown op %s\n", n.c_str()); _exit(3); }
@@ -353,7 +354,7 @@ static std::string path_str(const Path& p) { std::string s; for (auto& [a, k] : 
 struct Work { Path prefix; long from; };
 
 static std::string enabled_str(const std::vector<En>& en)
-{ std::string es = "|E:"; for (size_t i = 0; i < en.size(); i++) es += (i ? "," : "") + std::to_string(en[i].a->get_pid()) + "/" + std::to_string(en[i].maxc); return es; }
+{ std::string es = "|E:"; if (assertion_failed) return es; /* a failed assertion ends the execution */ for (size_t i = 0; i < en.size(); i++) es += (i ? "," : "") + std::to_string(en[i].a->get_pid()) + "/" + std::to_string(en[i].maxc); return es; }
 
 static void explore_program(const Program& p, char* argv0)
 {
@@ -414,6 +415,7 @@ int main(int argc, char** argv)
   if (argc < 3) { fprintf(stderr, "usage: vx explore|run|replay ...\n"); return 2; }
   std::string mode = argv[1];
   auto progs = parse(argv[2]);
+  run_mode = mode == "run";
   if (mode == "run") { // normal main: used under simgrid-mc, with --cfg=model-check/replay, and in plain (non-MC) runs
     int idx = atoi(argv[3]); int ac = argc - 3; char** av = argv + 3; av[0] = argv[0];
     setup(progs.at(idx), &ac, av);
